@@ -330,6 +330,33 @@ def bind_loop(ev: Evaluator, fr, loop: ast.For, env: Dict[str, Any]) -> Optional
             return None
         idx = ev.symbol(tgt.id)
         return LoopBinding(idx, lo, hi, {tgt.id: idx}, f"range({lo}, {hi})")
+    # zip(a[k1:m1], a[k2:m2], ...): position p visits a[k1+p], a[k2+p], ... ; all slices must have the same length
+    if isinstance(it, ast.Call) and isinstance(it.func, ast.Name) and it.func.id == "zip" and not it.keywords and len(it.args) >= 2 \
+            and isinstance(tgt, (ast.Tuple, ast.List)) and len(tgt.elts) == len(it.args) and all(isinstance(e, ast.Name) for e in tgt.elts):
+        idx = ev.symbol("pos!" + tn[0])
+        bindings = {}
+        count = None
+        for e_t, a_node in zip(tgt.elts, it.args):
+            v = fr.expr(a_node, env)
+            cols = v.items if (isinstance(v, Vec) and v.kind == "point") else [v]
+            els = []
+            for c in cols:
+                if not (isinstance(c, Rat) and c.is_array()):
+                    return None
+                a = single_atom(c)
+                if a is not None and a.kind == "fn" and a.name == "slice" and (a.args[1].is_const() is None or a.args[1].is_const() >= 0):
+                    els.append(anf.opaque("at", a.args[0], a.args[1].add(idx), array=False))
+                else:
+                    els.append(anf.opaque("at", c, idx, array=False))
+                ln = ev.length_of(c)
+                if count is None:
+                    count = ln
+                elif not count.equals(ln):
+                    return None
+            bindings[e_t.id] = Vec(els, "point") if isinstance(v, Vec) else els[0]
+        if count is None:
+            return None
+        return LoopBinding(idx, Rat.const(0), count, bindings, f"zip of {len(it.args)} equally long slices")
     # enumerate(arr[, start])
     start = Rat.const(0)
     enum = False
